@@ -552,11 +552,7 @@ func stressDomain(lines []string) []string {
 		case "obs":
 			sc = stressObs
 		case "seqcancel":
-			// WITNESS of a known finding (run only by the known-finding routine, never among the generated cases): a
-			// synchronous Sequential handler is busy; a second publisher passes its context check and waits for the handler's
-			// mutex; its context is cancelled; the handler is started for its event all the same once the mutex is free
-			out = append(out, seqCancelWitness())
-			continue
+			sc = stressSeqCancel
 		default:
 			out = append(out, "bad-op "+line)
 			continue
@@ -577,7 +573,17 @@ func stressDomain(lines []string) []string {
 
 type seqCancelEv struct{ N int }
 
-func seqCancelWitness() string {
+// stressSeqCancel: a synchronous Sequential handler is busy; a second publisher passes its context check and waits for the
+// handler's mutex; its context is cancelled; once the mutex is free the handler must NOT be started for that event any more
+// (the history of a defect repaired by fix 1feea95)
+func stressSeqCancel(r *rand.Rand) string {
+	if v := seqCancelWitness(time.Duration(20+r.Intn(40)) * time.Millisecond); v != "seqcancel started-after-cancel=0" {
+		return "a synchronous Sequential handler was started for a publish whose context had been cancelled while the publisher waited for the handler's lock (" + v + ")"
+	}
+	return ""
+}
+
+func seqCancelWitness(settle time.Duration) string {
 	bus := eb.New()
 	inside, release := make(chan struct{}), make(chan struct{})
 	var mu sync.Mutex
@@ -596,9 +602,9 @@ func seqCancelWitness() string {
 	ctx, cancel := context.WithCancel(context.Background())
 	done := make(chan struct{})
 	go func() { eb.PublishContext(bus, ctx, seqCancelEv{2}); close(done) }()
-	time.Sleep(100 * time.Millisecond) // the second publisher has passed its context check and waits for the mutex
+	time.Sleep(settle) // the second publisher has passed its context check and waits for the mutex
 	cancel()
-	time.Sleep(20 * time.Millisecond)
+	time.Sleep(5 * time.Millisecond)
 	close(release)
 	select {
 	case <-done:
